@@ -223,7 +223,7 @@ def second_call_check(ctx, spec, labels, rng, case):
         ctx.check("second-call-equals-fresh-graph", False, {"exception": type(ex).__name__}, {"edits": edits}, case)
         return
     a, b = M.snapshot_poses(g), M.snapshot_poses(fresh)
-    same = all(len(p) == len(q) and all((x == y) or (x != x and y != y) or abs(x - y) <= 1e-11 * max(1.0, abs(x)) for x, y in zip(p, q)) for p, q in zip(a, b))
+    same = all(len(p) == len(q) and all((x == y) or (x != x and y != y) or abs(x - y) <= 1e-9 * max(1.0, abs(x)) for x, y in zip(p, q)) for p, q in zip(a, b))
     ctx.check("second-call-equals-fresh-graph", same, {"history": "second call after edits"}, {"edits": sorted(set(edits))}, dict(case, edits=edits))
     # and the fresh graph's step is the Gauss-Newton step of the current problem (black-box oracle)
     one_step_check(ctx, now, labels | {"second_call"}, False, dict(case, stage="second call"))
